@@ -216,6 +216,42 @@ def project_equal(impl, ref):
             a, b = iv.split(","), v.split(",")
             if len(a) != len(b) or any(y != "*" and x != y for x, y in zip(a, b)):
                 bad.append(k)
+        elif k == "outs":
+            # announcement rule (C16): per port, the announced values with consecutive repeats removed must be the
+            # trajectory of the driven output with consecutive repeats removed (the initial value may go unannounced);
+            # announcements for untouched ports are not allowed; time stamps must not decrease
+            ann, stamps, okfmt = {}, [], True
+            for hm in [x for x in impl.get("msgs", "").split("|") if x]:
+                try:
+                    txt = bytes.fromhex(hm).decode()
+                except Exception:
+                    okfmt = False; continue
+                f = txt.split(":")
+                if f[0] != "ioport":
+                    continue
+                if len(f) != 4:
+                    okfmt = False; continue
+                try:
+                    ann.setdefault(int(f[1], 16), []).append(int(f[2], 16)); stamps.append(int(f[3]))
+                except ValueError:
+                    okfmt = False
+            def dedup(l):
+                o = []
+                for x in l:
+                    if not o or o[-1] != x:
+                        o.append(x)
+                return o
+            want = {}
+            for item in [x for x in v.split(";") if x]:
+                pk, tr = item.split(":")
+                want[int(pk, 16)] = dedup([int(x, 16) for x in tr.split(".")])
+            good = okfmt and stamps == sorted(stamps) and all(pk in want for pk in ann)
+            for pk, tr in want.items():
+                a = dedup(ann.get(pk, []))
+                if not (a == tr or a == tr[1:]):
+                    good = False
+            if not good:
+                bad.append(k)
         elif k == "st":
             if impl.get("res", "") != v:
                 bad.append(k)
